@@ -9,6 +9,7 @@ Model conformance of each operation and aliasing over histories are not decided.
 import mir
 import re
 import rules
+from mir import op_local
 from core import AnchorMissing
 from props import _builtins
 
@@ -33,6 +34,7 @@ def run(ctx, rep):
     _hashkeys.run(F, rep)
     _hashkeys.hash_eq_agree(F, rep)
     fresh_results(F, rep)
+    effects_confined(F, rep)
     index_dispatch(F, rep)
     values_not_views(F, rep)
     if _casts is not None:
@@ -269,6 +271,59 @@ def fresh_results(F, rep):
         rep.ob("C13.fresh-result", "%s::finish returns its own result buffer, never the traversed list" % m.group(1), "violated" if bad else ("ok" if good else "undecided"),
                "; ".join(bad) if bad else "%d return site(s)" % good, f.span, fn=f.path, key="C13.fresh-result|%s::finish" % m.group(1))
     rep.floor("C13.fresh-result container-returning operations judged", n, 4)
+
+
+def effects_confined(F, rep):
+    """A list / map operation changes the container it is called on and nothing else: in every arm of BuiltInFunction::run, each mutable borrow
+    of a container cell - taken directly, or inside a method of crate bytecode that mutably borrows its own receiver (GcMap::insert, ...) - is
+    rooted at `arguments.first()`, the receiver.  A mutable borrow rooted at another argument changes a list the caller merely passed in
+    (`a.join(b)` emptying b), which every alias of that argument then sees."""
+    from props import _casts
+    import rules
+    run_, arms = _casts.arms_of_run(F)
+    BM = ("gc::GcCell<T>::borrow_mut", "gc::GcCell::<T>::borrow_mut")
+    # methods of crate bytecode that mutably borrow (a cell of) their own receiver
+    mutators = set()
+    for f in F.crates["bytecode"].fns:
+        if f.argc < 1 or f is run_:
+            continue
+        for c in f.calls():
+            if c.matches(BM) and c.args and op_local(c.args[0]) is not None and rules.origins(f, op_local(c.args[0])) == {("arg", 1)}:
+                mutators.add(f.path)
+    n = 0
+    for variant, blocks in sorted(arms.items()):
+        sites = []
+        for c in run_.calls():
+            if c.bb not in blocks or not c.args:
+                continue
+            if c.matches(BM) or c.callee() in mutators or any(nm in mutators for nm in c.names):
+                sites.append(c)
+        if not sites:
+            continue
+        bad, undec = [], []
+        for c in sites:
+            l = op_local(c.args[0])
+            oc = rules.origin_calls(run_, l) if l is not None else []
+            roots = set()
+            for o in oc:
+                if o.matches(("core::slice::<impl [T]>::first", "[T]::first")) or mir.short(o.callee()) == "[T]::first":
+                    roots.add(0)
+                elif mir.short(o.callee()) == "[T]::get" and len(o.args) > 1 and isinstance(o.args[1], dict) and "const" in o.args[1]:
+                    roots.add(int(o.args[1]["const"].get("int", -1)))
+                else:
+                    roots.add(mir.short(o.callee()))
+            if not roots:
+                undec.append("%s: target of the mutable borrow not traced" % c.span)
+            for r in roots:
+                if isinstance(r, int) and r >= 1:
+                    bad.append("mutable borrow of argument %d at %s" % (r, c.span))
+                elif not isinstance(r, int):
+                    undec.append("%s: borrow rooted at %s" % (c.span, r))
+        n += 1
+        rep.ob("C13.effects-confined", "%s changes its receiver only, never a container passed as an argument" % variant,
+               "violated" if bad else ("undecided" if undec else "ok"), "; ".join(bad or undec) or "%d mutation site(s), all on argument 0" % len(sites),
+               sites[0].span, fn=run_.path, key="C13.effects-confined|%s" % variant)
+    rep.floor("C13.effects-confined mutating operations judged", n, 6)
 
 
 def index_dispatch(F, rep):
